@@ -203,6 +203,10 @@ class burn_card:
     def requires(s):
         return rows_ok(s)
 
+    @P('C10', 'a card is burnt only when a burn is due and nobody still has to stand pat or discard')
+    def at_update_burn_only_when_due(old):
+        return old.card_burning_status and not any(old.standing_pat_or_discarding_statuses)
+
     @P('C10', 'the burn is done once: nothing else that is due changes')
     def at_update_burn_done(old, s):
         n = s.player_count
@@ -210,7 +214,7 @@ class burn_card:
                 and all(due(s, i) == due(old, i) for i in range(n))
                 and tuple(s.board_dealing_counts) == tuple(old.board_dealing_counts))
 
-    at_call = {Q + '_update_dealing': ['at_update_burn_done']}
+    at_call = {Q + '_update_dealing': ['at_update_burn_only_when_due', 'at_update_burn_done']}
 
 
 @contract(Q + 'deal_hole', 'C10')
@@ -221,6 +225,10 @@ class deal_hole:
 
     def requires(s):
         return hole_dealee_index.requires(s)
+
+    @P('C10', 'a named seat is the seat that is dealt (seat 0 included); without one it is the next player due')
+    def at_update_named_seat_is_dealt(old, op, player_index):
+        return op.player_index == (player_index if player_index is not None else old.hole_dealee_index)
 
     @P('C10', 'each dealt card takes the next prescribed facing: the player\'s facings grow by the first of the facings he was due, '
               'which are no longer due; the record says so; nobody else is dealt anything')
@@ -234,7 +242,7 @@ class deal_hole:
                         for j in range(n) if j != i)
                 and tuple(s.board_dealing_counts) == tuple(old.board_dealing_counts))
 
-    at_call = {Q + '_update_dealing': ['at_update_cards_take_prescribed_facings']}
+    at_call = {Q + '_update_dealing': ['at_update_named_seat_is_dealt', 'at_update_cards_take_prescribed_facings']}
 
 
 @contract(Q + 'stand_pat_or_discard', 'C10')
